@@ -175,3 +175,43 @@ Theorem C06_walk_resumes_after_deletions :
    bwalk (bwfuel es') es' k desc (Some (T, nm)) pg [] vis tr = FOk (E_NOTFOUND, pg, vis, tr)).
 Proof. exact walk_resumes_after_deletions. Qed.
 Print Assumptions C06_walk_resumes_after_deletions.
+
+(* ---- GetRecords: every summary is the record at its position, for every count ----
+   [get_records es start n desc] models cmsys.GetRecords(board, dir, start, n, desc); [tag es i] = (i, the record stored at
+   1-based position i); [zseq (dir desc) start m] = start, start +- 1, ... (m terms); [remn es desc start] = records left
+   from start in the listing direction.  For EVERY file, every start position inside it, EVERY count n (one record, one read
+   block of 128, several blocks, more than the file holds), both directions: min(n, what is left) summaries come back and
+   the j-th one is the record stored at position start +- j.  The page of bbs.LoadGeneralArticles is cut from this list
+   (load_page), so a page of 128 and more entries lists the same records as 128 pages of one. *)
+Theorem C06_getrecords_eq_scan : forall es start n desc, 1 <= start <= lenZ es ->
+  get_records es start n desc =
+    FOk (map (tag es) (zseq (dir desc) start (Nat.min n (Z.to_nat (remn es desc start))))).
+Proof. exact getrecords_eq_scan. Qed.
+Print Assumptions C06_getrecords_eq_scan.
+
+(* ---- the name comparison, on bytes, under every site configuration ----
+   [fname t nm] = the bytes of "M.<t as 10 decimal digits>.A.<nm as 3 hex digits>"; [fn_eq sd a b] models
+   ptttype.Filename_t.Eq (Cstrcmp from byte 2 on) on a site whose safe-delete prefix FN_SAFEDEL has sd bytes (2 for the
+   default ".d", 8 for ".deleted").  For ALL article names and EVERY sd the comparison is exactly the equality of the
+   (creation time, suffix) pairs that find / get_record / find_spec work with: two names that differ only in the leading
+   digits of the time are different names, whatever the delete prefix of the site is. *)
+Theorem C06_name_eq_bytes : forall sd t nm t' nm', name_ok t nm -> name_ok t' nm' ->
+  fn_eq sd (fname t nm) (fname t' nm') = (t =? t') && (nm =? nm').
+Proof. exact fn_eq_pair. Qed.
+Print Assumptions C06_name_eq_bytes.
+
+(* The offset matters: comparing from byte 8 (after a ".deleted"-sized prefix) instead of byte 2 identifies different
+   articles - M.1607203395.A.F6C and M.1607213395.A.F6C, 10000 seconds apart.  Such a comparison is not name equality;
+   the check runs every lookup under FN_SAFEDEL=".deleted" as well as ".d" with names of exactly this shape. *)
+Theorem C06_name_eq_from_safedel_prefix_refuted :
+  exists t nm t' nm', name_ok t nm /\ name_ok t' nm' /\ (t, nm) <> (t', nm') /\
+    fn_eq_from 8 (fname t nm) (fname t' nm') = true.
+Proof. exact fn_eq_from_safedel_prefix_refuted. Qed.
+Print Assumptions C06_name_eq_from_safedel_prefix_refuted.
+
+(* The configuration is not an input of lookup and paging: a case run "under FN_SAFEDEL of length sd" (first group
+   [20; sd; op], what the harness sends after configuring the site) is answered by the model exactly as under the default *)
+Theorem C06_config_independent : forall sd op rest, 2 <= sd <= 8 ->
+  run_case ([20; sd; op] :: rest) = run_case ([op] :: rest).
+Proof. exact config_independent. Qed.
+Print Assumptions C06_config_independent.
